@@ -395,14 +395,14 @@ def check(tier):
     rep.components = {"real": ["Cython/Build/Dependencies.py cythonize / create_extension_list / cythonize_one", "the whole compiler", "real fork()ed pool workers",
                                "real interpreters with the chosen PYTHONHASHSEED"],
                       "stub": ["concurrent.futures.ProcessPoolExecutor -> SimPool (who gets which job)", "ASLR disabled via setarch -R"]}
-    rep.assumptions = ["the 'compiled with itself' cell builds the staged tree with its own setup.py (CFLAGS=-O0) in a scratch copy while the main batch runs and then repeats a smaller batch of builds through it (8 quick / 160 thorough); if it cannot be built within the budget the evidence says so (probe selfcompiled_cell_not_run)",
+    rep.assumptions = ["the 'compiled with itself' cell builds the staged tree with its own setup.py (CFLAGS=-O0) in a scratch copy while the main batch runs and then repeats a smaller batch of builds through it (6 quick / 160 thorough); if it cannot be built within the budget the evidence says so (probe selfcompiled_cell_not_run)",
                        "SimPool runs workers one after the other: pool workers share nothing but the file system, so their relative timing cannot matter"]
-    budget = core.env_budget(80 if tier == "quick" else 900)
+    budget = core.env_budget(45 if tier == "quick" else 900)
     deadline = time.time() + budget
     cfg = {"case_timeout_s": 900}
     sc_proc = start_selfcompile()       # builds in the background (about 1.5 min) while the main batch runs
-    n = 64 if tier == "quick" else 10 ** 8
-    batch = 64 if tier == "quick" else 800
+    n = 48 if tier == "quick" else 10 ** 8
+    batch = 48 if tier == "quick" else 800
     start, viol = 0, []
     while start < n and time.time() < deadline - 15:
         results = core.run_batch(one_run, PROP, seed, range(start, min(n, start + batch)), cfg, chunk=5, deadline=deadline)
@@ -421,7 +421,7 @@ def check(tier):
     rep.extra["selfcompiled_compiler"] = sc_note
     if sc_stage and not viol:
         cfg_sc = dict(cfg, selfcompiled_stage=sc_stage, force_selfcompiled=True)
-        nsc = 8 if tier == "quick" else 160
+        nsc = 6 if tier == "quick" else 160
         for i, r in core.run_batch(one_run, PROP, seed, range(10 ** 6, 10 ** 6 + nsc), cfg_sc, chunk=4, deadline=time.time() + (60 if tier == "quick" else budget * 0.3)):
             if "harness_error" in r:
                 rep.harness_errors.append(r["harness_error"])
